@@ -3176,8 +3176,11 @@ HP_read(filerec_t *file_rec, void *buf, int32 bytes)
             HGOTO_ERROR(DFE_INTERNAL, FAIL);
     } /* end if */
 
-    if (HI_READ(file_rec->file, buf, bytes) == FAIL)
+    if (HI_READ(file_rec->file, buf, bytes) == FAIL) {
+        /* the position of the stream is no longer known: force a seek before the next access */
+        file_rec->last_op = H4_OP_UNKNOWN;
         HGOTO_ERROR(DFE_READERROR, FAIL);
+    }
     file_rec->f_cur_off += bytes;
     file_rec->last_op = H4_OP_READ;
 done:
